@@ -77,6 +77,33 @@ pub fn ascii_markers(key: u64, n: usize, base: usize) -> Vec<u8> {
     (0..n).map(|i| 0x21 + marker(key, base + i) % 0x5e).collect()
 }
 
+/// `n` bytes of valid, NUL-free UTF-8 in which one-, two-, three- and
+/// four-byte characters alternate pseudo-randomly (so that a character
+/// straddles most byte offsets for some key).
+pub fn utf8_markers(key: u64, n: usize, base: usize) -> Vec<u8> {
+    const CH: [&str; 6] = ["a", "\u{e9}", "\u{20ac}", "\u{10348}", "Z", "\u{df}"];
+    let mut v = Vec::with_capacity(n);
+    let mut i = 0;
+    while v.len() < n {
+        let c = CH[marker(key, base + i) as usize % CH.len()].as_bytes();
+        i += 1;
+        if v.len() + c.len() <= n {
+            v.extend_from_slice(c);
+        } else {
+            v.push(0x21 + marker(key, base + i) % 0x5e);
+        }
+    }
+    v
+}
+
+fn text(key: u64, n: usize, base: usize, sel: u32) -> Vec<u8> {
+    if sel & 8 != 0 {
+        utf8_markers(key, n, base)
+    } else {
+        ascii_markers(key, n, base)
+    }
+}
+
 /// In-use / unused raw ELF section types used by the generators.
 pub const ELF_TYPES: [u32; 20] = [
     0,
@@ -110,7 +137,7 @@ pub fn conformant_tag(kind: u32, key: u64, n: usize, sel: u32) -> Vec<u8> {
     match kind {
         0 | 18 => tag(kind, &[]),
         1 | 2 => {
-            let mut body = ascii_markers(key, n, 8);
+            let mut body = text(key, n, 8, sel);
             body.push(0);
             tag(kind, &body)
         }
@@ -121,7 +148,7 @@ pub fn conformant_tag(kind: u32, key: u64, n: usize, sel: u32) -> Vec<u8> {
             let (s, e) = if a <= b { (a, b) } else { (b, a) };
             put32(&mut body, 0, s);
             put32(&mut body, 4, e);
-            body.extend(ascii_markers(key, n, 16));
+            body.extend(text(key, n, 16, sel));
             body.push(0);
             tag(3, &body)
         }
